@@ -346,6 +346,10 @@ func (vc *FuncVC) Encode() {
 		known = append(known, *vc.comps[k])
 	}
 	vc.known = known
+	vc.dryGlobals = map[string]bool{}
+	for g := range vc.globals {
+		vc.dryGlobals[g] = true
+	}
 	vc.reset(false)
 	vc.run()
 }
@@ -409,8 +413,12 @@ func (vc *FuncVC) run() {
 	entryEnv := &Env{vc: vc, st: st, old: st, vars: map[string]SVal{}, lookup: vc.resolver(defs, fn.Blocks[0], 0, st, nil, nil)}
 	// global invariants (assumed at entry; proved of init separately)
 	for _, gi := range vc.S.GlobalInv {
-		if vc.isInit {
+		if vc.isInit || vc.dry {
 			break
+		}
+		// only invariants about package-level variables this function (or its contracts) actually touches
+		if !vc.mentionsDryGlobal(gi) {
+			continue
 		}
 		e := *entryEnv
 		e.ctx = gi.Ctx
@@ -1609,4 +1617,33 @@ func (vc *FuncVC) autoRangeIndex(l *loopInfo, b *ssa.BasicBlock, reach Term) {
 		L := vc.val(cmp.Y)
 		vc.assume(reach, And(App(SBool, "<=", IntLit(-1), p), Or(Eq(p, IntLit(-1)), App(SBool, "<", p, L))))
 	}
+}
+
+func (vc *FuncVC) mentionsDryGlobal(gi *Clause) bool {
+	if gi.Ctx == nil || gi.Ctx.Pkg == nil {
+		return true
+	}
+	found := false
+	ast.Inspect(gi.Expr, func(n ast.Node) bool {
+		switch x := n.(type) {
+		case *ast.Ident:
+			if v, ok := gi.Ctx.Pkg.Scope().Lookup(x.Name).(*types.Var); ok {
+				if vc.dryGlobals["g_"+mangle(v.Pkg().Path()+"."+v.Name())] {
+					found = true
+				}
+			}
+		case *ast.SelectorExpr:
+			if id, ok := x.X.(*ast.Ident); ok {
+				if ip := gi.Ctx.Imports[id.Name]; ip != nil {
+					if v, ok := ip.Scope().Lookup(x.Sel.Name).(*types.Var); ok {
+						if vc.dryGlobals["g_"+mangle(v.Pkg().Path()+"."+v.Name())] {
+							found = true
+						}
+					}
+				}
+			}
+		}
+		return true
+	})
+	return found
 }
